@@ -383,7 +383,20 @@ def r55(facts, res):
     if len(fs) != 1:
         res.lost(R, 'repair_to_parse_repair not found')
         return
-    clos = [c for c in facts.closures_of(fs[0]) if c.calls_named('next_lexeme')]
+    allc = facts.closures_of(fs[0])
+    clos = [c for c in allc if c.calls_named('next_lexeme')]
+    # a helper closure that hands out the lexeme under the cursor and steps the cursor (`|| { let l = next_lexeme(i); i += 1; l }`),
+    # called from the mapping closure
+    consumer = None
+    mapping = [c for c in allc if 'ParseRepair' in c.lty(0) and not c.calls_named('next_lexeme')]
+    if len(clos) == 1 and len(mapping) == 1 and 'ParseRepair' not in clos[0].lty(0):
+        cps = [p for p in Walker(clos[0], facts, max_paths=16).run() if p.end[0] == 'return']
+        if len(cps) == 1 and is_call(strip_ref(cps[0].end[1]), 'next_lexeme'):
+            adv = [e for e in cps[0].stores() if isinstance(e[3], tuple) and e[3][0] == 'bin' and e[3][1] == 'Add' and e[3][3] == ('const', 1)]
+            nl = strip_ref(cps[0].end[1])
+            if len(adv) == 1 and nl[2][1] == adv[0][3][2]:
+                consumer = clos[0]
+                clos = mapping
     rp = facts.adt('lrpar::cpctplus::Repair')
     vn = {v['discr']: v['name'] for v in rp['variants']}
     want = {'InsertTerm': ('Insert', False), 'Delete': ('Delete', True), 'Shift': ('Shift', True)}
@@ -415,7 +428,15 @@ def r55(facts, res):
             out = p.end[1][3] if p.end[1][0] == 'variant' else '?'
             adv = [e for e in p.stores() if isinstance(e[3], tuple) and e[3][0] == 'bin' and e[3][1] == 'Add' and e[3][3] == ('const', 1)]
             lex_ok = True
-            if kind in ('Delete', 'Shift'):
+            if consumer is not None:
+                # the consuming helper is called exactly when a lexeme is consumed, and its result is the lexeme reported
+                cc = [e for e in p.calls() if e[2] and (e[2].get('resolved') or e[2].get('path')) == consumer.path]
+                adv = cc
+                if kind in ('Delete', 'Shift'):
+                    pay = p.end[1][4][0] if p.end[1][0] == 'variant' and p.end[1][4] else None
+                    lex_ok = len(cc) == 1 and pay is not None and term_has(pay, lambda x: isinstance(x, tuple) and x and x[0] == 'call' and x[1] == (cc[0][2].get('resolved') or cc[0][2].get('path')) or x == cc[0][5] if len(cc[0]) > 5 else False)
+                    lex_ok = lex_ok or (len(cc) == 1 and pay is not None and any(is_call(x, 'call_mut') or is_call(x, 'call') or is_call(x, 'call_once') for x in subterms(pay)))
+            elif kind in ('Delete', 'Shift'):
                 nl = find_calls(p.end[1], 'next_lexeme')
                 lex_ok = bool(nl) and bool(adv) and nl[0][2][1] == adv[0][3][2]
             seen[kind] = (out, bool(adv), lex_ok)
